@@ -190,8 +190,9 @@ def run(ctx):
     ctx.oblige("oracle:at-most-once+dead-after-attempt+dead-after-ttl(impl)", not unexpected,
                f"{n_bad} runs violate the property; signatures {sorted(seen)}; not a known finding: {sorted(unexpected)}")
     # the Lean witness schedules were replayed: two successes where the lock does not reach (several nodes), one on a single node
-    ctx.oblige("lean-witnesses-replayed-on-impl", lw["multi2"] >= 3 and lw["single1"] >= 6 and lw["other"] == 0,
-               f"multinode runs with 2 successes: {lw['multi2']}, single-node runs with 1 success: {lw['single1']}, unexpected: {lw['other']}")
+    if not ctx.replay:
+        ctx.oblige("lean-witnesses-replayed-on-impl", lw["multi2"] >= 3 and lw["single1"] >= 6 and lw["other"] == 0,
+                   f"multinode runs with 2 successes: {lw['multi2']}, single-node runs with 1 success: {lw['single1']}, unexpected: {lw['other']}")
 
     # ---- correspondence model vs implementation, schedule by schedule
     if bad:
